@@ -509,3 +509,100 @@ func ownOnly(paths []Path, g *CallGraph, root string) []Path {
 	}
 	return out
 }
+
+// NilnessAt answers what path p has established about e (an identifier or selector chain) at event
+// index idx: "nil", "nonnil" or "" (unknown). It walks back from idx: a branch event that compares
+// the same place with nil decides; an assignment to the place decides by what was assigned (the nil
+// literal, a fresh error from fmt.Errorf / errors.New / a composite literal address) or ends the walk.
+func NilnessAt(info *types.Info, p *Path, idx int, e ast.Expr) string {
+	e = ast.Unparen(e)
+	if ValueKey(info, e) == "nil" {
+		return "nil"
+	}
+	if freshNonNil(info, e) {
+		return "nonnil"
+	}
+	key := chainKey(e)
+	if key == "" {
+		return ""
+	}
+	obj := ObjOf(info, e)
+	same := func(x ast.Expr) bool {
+		x = ast.Unparen(x)
+		if chainKey(x) != key {
+			return false
+		}
+		return obj == nil || ObjOf(info, x) == obj
+	}
+	for j := idx - 1; j >= 0; j-- {
+		ev := p.Ev[j]
+		switch ev.Kind {
+		case EvBranch:
+			for _, l := range EventLiterals(info, ev) {
+				if l.Val == "nil" && same(l.X) {
+					if l.Eq {
+						return "nil"
+					}
+					return "nonnil"
+				}
+			}
+		case EvAssign:
+			for k, l := range ev.Lhs {
+				if !same(l) {
+					continue
+				}
+				var rhs ast.Expr
+				if len(ev.Lhs) == len(ev.Rhs) {
+					rhs = ev.Rhs[k]
+				} else if len(ev.Vals) == len(ev.Lhs) {
+					rhs = ev.Vals[k]
+				}
+				if rhs == nil {
+					return ""
+				}
+				if ValueKey(info, rhs) == "nil" {
+					return "nil"
+				}
+				if freshNonNil(info, rhs) {
+					return "nonnil"
+				}
+				if len(ev.Vals) == len(ev.Lhs) && ev.Vals[k] != nil {
+					if ValueKey(info, ev.Vals[k]) == "nil" {
+						return "nil"
+					}
+					if freshNonNil(info, ev.Vals[k]) {
+						return "nonnil"
+					}
+				}
+				return ""
+			}
+		case EvCall:
+			// a call may write through a selector chain (not a plain local)
+			if _, isIdent := e.(*ast.Ident); !isIdent && !ev.Inlined {
+				return ""
+			}
+		}
+	}
+	return ""
+}
+
+// freshNonNil: an expression whose value is a freshly made, non-nil error or pointer.
+func freshNonNil(info *types.Info, e ast.Expr) bool {
+	e = ast.Unparen(e)
+	switch x := e.(type) {
+	case *ast.CallExpr:
+		if f, ok := calleeFunc(info, x); ok {
+			switch FuncKey(f) {
+			case "fmt.Errorf", "errors.New":
+				return true
+			}
+		}
+	case *ast.UnaryExpr:
+		if x.Op == token.AND {
+			if _, ok := ast.Unparen(x.X).(*ast.CompositeLit); ok {
+				return true
+			}
+		}
+	}
+	return false
+}
